@@ -69,16 +69,16 @@ PROPS = {
                 slices=[S("conc", 24, 400, ["goroutines_serial"])],
                 assumptions=["schedule points exist only with build tag verif (client/pkg/verifhook)", "Go memory model / data races are not decided (named gap)"]),
     "C06": dict(lean=["Orda.Props.C06"], rule="non-trivial: ≥2 clients pushed to the same datatype and at least one request was a re-push, an empty push or came after other clients' pushes; store dumped and checked after EVERY request; distinct command sequences",
-                slices=[S("svclog", 60, 900, ["corr", "loginv", "no_panic"]), S("mut", 60, 900, ["corr", "loginv", "refused_noop"])], assumptions=SERVICE_ASSUMPTIONS),
+                slices=[S("svclog", 60, 900, ["corr", "loginv", "no_panic"]), S("mut", 60, 900, ["corr", "loginv", "refused_noop"]), S("par", 6, 60, ["corr", "loginv", "no_panic"])], assumptions=SERVICE_ASSUMPTIONS),
     "C11": dict(lean=["Orda.Props.C11"], rule="each case: 1..3 clients, 1..2 keys over all four datatypes; ~30% of the pushes have their background snapshot updater HELD and released later (after further pushes, several held at once, released in generator order); after every request the harness replays the stored log with fresh real datatypes and compares with every stored snapshot, the user document and GetLatestDatatype; non-trivial: ≥1 held updater released after a later push and ≥1 snapshot check; distinct command sequences",
                 slices=[S("snap11", 50, 700, ["corr", "snapshot_replay", "loginv"]), S("rest", 20, 300, ["corr", "snapshot_replay"])], assumptions=SERVICE_ASSUMPTIONS + ["held updaters are released one at a time (the snapshot manager's own lock serialises them in the implementation); the order of release is the generator's"]),
     "C12": dict(lean=["Orda.Props.C12"], rule="each case: 2..16 clients over 1..2 keys; four rounds in which ALL clients call ProcessPushPull simultaneously (own contexts, cancelled on return); the derived serial order is replayed by the model; non-trivial: ≥2 clients pushed operations to the same key in one round; distinct command sequences",
-                slices=[S("par", 14, 160, ["corr", "loginv", "sconverge", "refused_noop", "lock_excludes"])],
+                slices=[S("par", 14, 160, ["corr", "loginv", "sconverge", "refused_noop", "lock_excludes", "no_panic"])],
                 race=dict(profile="par", cases=6), assumptions=SERVICE_ASSUMPTIONS[:1] + ["the serial order is derived from the responses (per key by committed end of log; pullers after the pusher that produced their end)", "data races / runtime deadlocks are looked for (race detector, deadline) but not excluded by proof"]),
     "C13": dict(lean=["Orda.Props.C13"], rule="non-trivial: a case exercises ≥2 entry modes on one key, or a refusal (create on existing / subscribe to missing / other type); distinct command sequences",
                 slices=[S("svc", 70, 1000, ["corr", "contract", "sconverge", "loginv"]), S("mut", 40, 600, ["corr", "contract", "refused_noop"]), S("par", 8, 100, ["corr", "contract", "loginv", "lock_excludes"])], assumptions=SERVICE_ASSUMPTIONS),
     "C16": dict(lean=["Orda.Props.C16"], rule="non-trivial: the case contains ≥1 mutated request that was refused and ≥1 later accepted request of the same client; distinct command sequences",
-                slices=[S("mut", 90, 1500, ["corr", "refused_noop", "usable_after_refusal", "loginv"])], assumptions=SERVICE_ASSUMPTIONS),
+                slices=[S("mut", 90, 1500, ["corr", "refused_noop", "usable_after_refusal", "loginv", "no_panic"]), S("par", 6, 60, ["corr", "refused_noop", "no_panic"])], assumptions=SERVICE_ASSUMPTIONS),
     "C17": dict(lean=["Orda.Props.C17"], rule="non-trivial: ≥2 collections hold datatypes under the same key and a request named a foreign collection or carried a foreign datatype id; distinct command sequences",
                 slices=[S("iso", 80, 1200, ["corr", "isolation", "loginv", "refused_noop"])], assumptions=SERVICE_ASSUMPTIONS),
     "C18": dict(lean=["Orda.Props.C18"], rule="non-trivial: the case has both pushes that stored operations and pull-only syncs; every request framed by two store dumps is checked; distinct command sequences",
